@@ -62,6 +62,10 @@ func (e *engine) generateLemmas(prop string) []*oblig {
 					proves = append(proves, t)
 					fc.assert(st, "lemma", "prove."+c.name(np), t, c.src, 0)
 					np++
+					if induct == "" {
+						// a proved clause may be used by the clauses after it (each is discharged on its own)
+						fc.assumes = append(fc.assumes, t)
+					}
 				}
 			}
 			if induct != "" {
